@@ -795,13 +795,15 @@ func (push *Push) getEVMEvent(subscribe *types.PushSubscribeReq, startSeq int64,
 			evmLogsPerBlk.SeqNum = i
 		}
 		size := types.Size(evmLogsPerBlk)
-		if len(evmLogsPerBlk.TxAndLogs) > 0 && totalSize+size < maxSize {
+		if len(evmLogsPerBlk.TxAndLogs) > 0 {
+			// 与getBlockSeqs一致: 第一个匹配的区块总是推送(即使超过maxSize), 之后的区块放不下时留给下一批
+			if totalSize != 0 && totalSize+size >= maxSize {
+				break
+			}
 			evmlogs.Logs4EVMPerBlk = append(evmlogs.Logs4EVMPerBlk, evmLogsPerBlk)
 			totalSize += size
 			chainlog.Debug("get EVMEvent subscribed for pushing", "Name", subscribe.Name, "contract:", subscribe.Contract,
 				"height=", evmLogsPerBlk.Height)
-		} else if totalSize+size > maxSize {
-			break
 		}
 		actualIterCount++
 	}
@@ -860,13 +862,15 @@ func (push *Push) getTxReceipts(subscribe *types.PushSubscribeReq, startSeq int6
 			txReceiptsPerBlk.SeqNum = i
 		}
 		size := types.Size(txReceiptsPerBlk)
-		if len(txReceiptsPerBlk.Tx) > 0 && totalSize+size < maxSize {
+		if len(txReceiptsPerBlk.Tx) > 0 {
+			// 与getBlockSeqs一致: 第一个匹配的区块总是推送(即使超过maxSize), 之后的区块放不下时留给下一批
+			if totalSize != 0 && totalSize+size >= maxSize {
+				break
+			}
 			txReceipts.TxReceipts = append(txReceipts.TxReceipts, txReceiptsPerBlk)
 			totalSize += size
 			chainlog.Debug("get Tx Receipts subscribed for pushing", "Name", subscribe.Name, "contract:", subscribe.Contract,
 				"height=", txReceiptsPerBlk.Height)
-		} else if totalSize+size > maxSize {
-			break
 		}
 		actualIterCount++
 	}
